@@ -36,6 +36,10 @@ CHECKS = {
   "text": "Seeded search over numbers of polled futures x delegate completion times and failures x per-call poll-function behaviour (yield result / exception / twice / never after k sightings, raise at call k, odd intervals, taking virtual time) x cancel-function behaviour x cancel()/notify() from other threads placed inside windows by semantic triggers x schedules. Oracles by interval reasoning over the simulator's global event sequence: no overlapping poll calls, descriptor set between the must-include and may-include sets, result carried, first effective yield wins, a raising call fails exactly what it was shown, prompt poll after eligibility / notify (virtual time, stall-free), cancel-function contract.",
   "note": "Membership is judged against [end of previous call, entry of this call] because the snapshot-to-call window is inherent in the design; a yield that lost the race to a cancel() is not a resolving call.",
   "design": "10 (C08)"},
+ "C09": {
+  "text": "Seeded search over sets of 1-6 futures with default and per-call timeouts (0.05-120 s) submitted at drawn virtual times from 1-3 threads, work ending before / at / after the deadline or never, TimeoutExecutor and f_timeout, x schedules. Every cancel() reaching a returned future is recorded by an instance-level spy; oracles in exact virtual time: none before submit-invocation + timeout, exactly one for a future not done at its deadline and no later than submit-return + timeout + 5 ms, none for futures done before, outcome unchanged.",
+  "note": "120 s deadlines cost microseconds; the future's done-ness at the deadline is an interval [work end, set_result returned] - ambiguous cases are boundary cases; under injected stalls only 'never early' and 'at most once' are judged.",
+  "design": "10 (C09)"},
 }
 def main():
     checks = []
